@@ -2,7 +2,8 @@
    the block partition; the target-rank loop is generated from bag.ipp. *)
 From Coq Require Import ZArith List Bool Lia.
 Import ListNotations.
-From Ygm Require Import Gen.CArith Gen.Gen_rebalance Partition Rebalance.
+From Coq Require Import NArith Permutation.
+From Ygm Require Import Gen.CArith Gen.Gen_rebalance Partition Rebalance Bag.
 Local Open Scope Z_scope.
 
 (* The loop of bag::rebalance on a rank holding positions [prefix, prefix+cnt) of T items emits,
@@ -27,3 +28,32 @@ Theorem C14_counts_differ_by_at_most_one : forall len R r r',
   blk_size len R r - blk_size len R r' <= 1 /\ blk_size len R r' - blk_size len R r <= 1.
 Proof. exact blk_balanced. Qed.
 Print Assumptions C14_counts_differ_by_at_most_one.
+
+
+(* ---- conservation.  The two bags of Bag.v (all three insert overloads, rebalance shipments, global shuffle to
+   arbitrary destinations, local shuffle, clear, swap), viewed as multisets, follow the specification: an insert
+   adds exactly its items to the addressed bag, clear empties it, swap exchanges the two multisets, everything
+   else changes nothing - for every history, every number of ranks, every choice of shuffle destinations. *)
+Theorem C14_bags_refine_multisets : forall R ops, (0 < R)%nat ->
+  peq (abs (brun R ops)) (fold_left spec_step ops ([], [])) /\ wf (brun R ops).
+Proof. exact brun_refines. Qed.
+Print Assumptions C14_bags_refine_multisets.
+
+(* ---- tags.  In every history of inserts, erases, clears and swaps on two tagged bags, the tag returned by an insert
+   is at that moment not a key of that bag (so nothing is overwritten), carries the issuing rank in its upper bits
+   (so tags of different ranks differ), and the item is stored under exactly that tag.  [tstep] returns None only
+   when a rank has used all 2^40 serial numbers. *)
+Theorem C14_tag_returned_is_fresh : forall R pre w from v s1 rs1 s2 r,
+  trun (tinit R, tinit R) pre = Some (s1, rs1) ->
+  tstep s1 (TIns w from v) = Some (s2, r) ->
+  let bag_of (s : tbag * tbag) := if w then snd s else fst s in
+  exists t, r = Some t /\ ~ In t (map fst (tm (bag_of s1))) /\ trank t = from /\
+            tm (bag_of s2) = (t, v) :: tm (bag_of s1) /\ lookup t (tm (bag_of s2)) = Some v.
+Proof. exact tagged_insert_unique. Qed.
+Print Assumptions C14_tag_returned_is_fresh.
+
+(* non-vacuity: a history with swaps in which tags are really handed out on both bags *)
+Example C14_tags_history :
+  exists s rs, trun (tinit 2, tinit 2) [TIns true 0 7; TIns true 0 8; TSwap; TIns false 0 9; TIns true 1 5; TErase false 0%N; TClear true; TIns true 1 6]
+               = Some (s, rs) /\ rs = [Some 0%N; Some 1%N; None; Some 2%N; Some 1099511627776%N; None; None; Some 1099511627777%N].
+Proof. do 2 eexists. split; vm_compute; reflexivity. Qed.
